@@ -67,7 +67,7 @@ CLAIMED = {
 }
 SESSION_GENERIC = ("Executable Coq model of session.go+cache.go (Model/Sess.v, Model/Hist.v) compared with the real package on the FULL observation (result, returned session, cookies, script results, every persistence call with payload, cache, store, jar, clock, IDs drawn, Expired()) after every step of generated histories run under a virtual clock behind a serialising store (gob and JSON), incl. fault and crash enumeration and a corpus of the repaired defects; a property-specific oracle judges every real trace. Theorems: those of coq/Properties/%s.v (statement file; names and Print Assumptions output are in the evidence).")
 for pid, extra, tech in [
-    ("C01", "Theorems: C01_isolation_step / C01_isolation_hist_partial (per step: a returned session is one created by this call - next ordinal, empty, no user - or the one the presented ID resolves to) and, at the history level (Properties/C01H.v), C01_safety_hist: for every configuration, cache size, tie-break list, number of cookie-following clients and every hop kind (requests with any scripts without GetAndDelete, waits, PurgeSessions, cache loss, restarts, LogOut(userID), RefreshUser, configuration changes that keep the codec), whenever a request returns a session its data and user ID are exactly what that client's own acknowledged operations last wrote (ghost per-client specification), or it was created in that step; proved through the jar invariant C01_jar_inv_hist (each live client's jar holds a drawn ID that resolves to its ghost content; jars of different clients differ). Liveness: C01_live_step_partial and C01_live_run_partial (from C03H_live); the full history-level liveness statement is a Definition tested by vm_compute, and its 'any acceptable peer' variant is refuted at cache size 1 (C01_liveness_rules_refuted - the case the property itself leaves open). C01_with_getdel_refuted records D6. PARTIAL only in: codec switches mid-history, forged presentations (covered by correspondence + oracle), history-level liveness.", "Coq per-step lemmas + invariants + differential correspondence + trace oracle"),
+    ("C01", "Theorems: C01_isolation_step / C01_isolation_hist_partial (per step: a returned session is one created by this call - next ordinal, empty, no user - or the one the presented ID resolves to) and, at the history level (Properties/C01H.v), C01_safety_hist: for every configuration, cache size, tie-break list, number of cookie-following clients and every hop kind (requests with any scripts without GetAndDelete, waits, PurgeSessions, cache loss, restarts, LogOut(userID), RefreshUser, configuration changes that keep the codec), whenever a request returns a session its data and user ID are exactly what that client's own acknowledged operations last wrote (ghost per-client specification), or it was created in that step; proved through the jar invariant C01_jar_inv_hist (each live client's jar holds a drawn ID that resolves to its ghost content; jars of different clients differ). Liveness at the history level (Properties/C01L.v): C01_liveness_hist - along every history of cookie-following requests with any scripts (no GetAndDelete), non-negative waits, purges, user-wide logouts and refreshes and configuration changes that keep codec and peer/agent rules, without cache loss, for every cache size != 0, every duration and tie-break: whenever a client's request comes less than SessionExpiry (minus the codec's slack) after its last accepted request, from the same peer and agent, it is served (C01_served_spec: and what it is served is exactly the client's own content). The 'any acceptable peer' variant is refuted at cache size 1 (C01_liveness_rules_refuted, C01L_peer_not_moved_size1: the case the property itself leaves open). C01_with_getdel_refuted records D6. PARTIAL only in: codec switches mid-history, forged presentations and cache loss for liveness (covered by correspondence + oracle).", "Coq per-step lemmas + invariants + differential correspondence + trace oracle"),
     ("C02", "C02_unknown / C02_nolookup per call (no existing session, fresh server ID, only one load under the value, logical content of every other ID unchanged; non-24-character values are never looked up) and their history-level forms (Properties/C02H.v): the state hypotheses hold in every state of a fault-free history (C02H_hypotheses_hold), junk values, not-yet-issued IDs and IDs that are gone never resolve in any continuation (C02H_junk_unknown, C02H_undrawn_unknown, C02H_gone_unknown). Assumption: presented values are not future draws (2^-128).", "Coq per-call theorem over all states + correspondence with forged-cookie stream"),
     ("C03", "Per call: C03_dead, C03_expired_pred, C03_live. History level (Properties/C03H.v): C03H_access_monotone (through the codec the access time of every ID never decreases along calm histories - evictions, sweeps, purges, config changes, any clients - for every cache size), C03H_access_now, C03H_live (a client whose gaps are below SessionExpiry minus the codec's slack, from acceptable peers, with cache size >= 1, is served at every request incl. rotating ones and after evict/purge/reload, for all values of the other durations), C03H_dead_hist (a stale ID never resolves again in any continuation incl. crashes and restarts).", "Coq per-call theorems + correspondence with waits at thresholds +-1ns + steady-client histories"),
     ("C04", "C04_seq for regenerate/login/start (due => exactly one draw, cookie, same data/user, old ID becomes reference; not due => nothing), instances for 0 and MaxInt64; history level (Properties/C04H.v): C04H_draws (in every request step the EvDraw ordinals equal the ordinals of its new live cookies, consecutive from the supply: every creation and every ID change draws exactly one ID, a redirect none) and C04H_no_draw; concurrent clause checked on K=2..32 real goroutines (one draw, one session) and resting on C13.", "Coq per-call theorems + correspondence + real concurrent runs"),
